@@ -17,6 +17,14 @@ KEY_F1 = "F1.poll-update-after-remove"
 KEY_F14 = "F14.empty-interest-registered"
 
 
+def gen_defined(name):
+    try:
+        txt = open(os.path.join(vlib.COQ, "Gen_C09.v")).read()
+    except OSError:
+        return False
+    return re.search(r"^Definition %s\b" % name, txt, re.M) is not None
+
+
 def gen_fact(name, default=None):
     try:
         txt = open(os.path.join(vlib.COQ, "Gen_C09.v")).read()
@@ -140,15 +148,15 @@ def annotate(raw_ops):
         if w[0] in ENVOPS:
             ds.apply(w)
             out.append(op)
-        elif w[0] == "POLL":
-            out.append(" ".join(["POLL"] + ["%d:%d" % (k, ds.ready(k)) for k in sorted(ds.d) if ds.ready(k)]))
+        elif w[0] in ("POLL", "LOOP"):
+            out.append(" ".join([w[0]] + ["%d:%d" % (k, ds.ready(k)) for k in sorted(ds.d) if ds.ready(k)]))
         else:
             out.append(op)
     return out
 
 
 def strip_poll(ops):
-    return ["POLL" if op.startswith("POLL") else op for op in ops]
+    return ["POLL" if op.startswith("POLL") else "LOOP" if op.startswith("LOOP") else op for op in ops]
 
 
 def mkcase(cid, raw_ops, tag):
@@ -169,7 +177,10 @@ def py_dispatch(r):
     return cbs
 
 
-POLL_RE = re.compile(r"^poll env=(\S*) E n=(\d+) cap=(\d+) \[(\S*)\] cb=(\S*) \| P n=(\d+) \[(\S*)\] cb=(\S*)$")
+POLL_RE = re.compile(r"^poll env=(\S*) E (?:n=(\d+) cap=(\d+)|dead) \[(\S*)\] cb=(\S*) \| P (?:n=(\d+)|dead) \[(\S*)\] cb=(\S*)$")
+LOOP_SIDE_RE = re.compile(r"^(?:E|P) (dead|FAULT|(ok|rejected) n=(\d+)(?: cap=(\d+))? \[(\S*)\](?: cb=(\S*))?)$")
+LOOPLINE_RE = re.compile(r"^loop env=(\S*) (E .*?) \| (P .*?) \|\| (.*)$")
+SCRIPT_OPS = ("ER", "DR", "EW", "DW", "DA", "RM")
 
 
 def parse_pairs(s):
@@ -190,11 +201,24 @@ def parse_cbs(s):
     return res
 
 
+def parse_loop_side(txt):
+    """'E ok n=2 cap=16 [0:1,1:1] cb=0:read' -> dict(status, n, cap, act (in dispatch order), cbs)"""
+    m = LOOP_SIDE_RE.match(txt)
+    if not m:
+        return None
+    if m.group(1) in ("dead", "FAULT"):
+        return {"status": m.group(1)}
+    return {"status": m.group(2), "n": int(m.group(3)), "cap": int(m.group(4)) if m.group(4) else None,
+            "act": parse_pairs(m.group(5)), "cbs": parse_cbs(m.group(6)) if m.group(6) is not None else None}
+
+
 class Spec:
-    """The interest map of the property text: Channel object -> subscribed conditions."""
+    """The interest map of the property text: Channel object -> subscribed conditions (one per back-end:
+    after a batch whose callbacks are order dependent the two sides may legitimately differ)."""
 
     def __init__(self):
-        self.o = {}       # c -> dict(fd, ev, reg, rm, anom)
+        self.o = {}       # c -> dict(fd, ev, reg, rm)
+        self.anom = set()  # channels currently in the state the F-14 signature describes
 
     def taken(self, fd, exc):
         return any(v["reg"] and v["fd"] == fd for c, v in self.o.items() if c != exc)
@@ -213,8 +237,10 @@ class Spec:
             return v is not None and v["reg"] and v["ev"] == 0
         return True
 
-    def finding_flags(self, w, ri):
-        """Which documented finding pattern this (guard-satisfying) op is an instance of."""
+    def finding_flags(self, w, ri=True):
+        """Signature of the documented finding this (guard-satisfying) op is an instance of.
+        F-14: an update that leaves the interest empty, applied to a fresh / unregistered channel or
+        to one whose interest is already empty."""
         k = w[0]
         c = int(w[1])
         v = self.o.get(c)
@@ -231,15 +257,22 @@ class Spec:
         c = int(w[1])
         if k == "NEW":
             self.o[c] = {"fd": int(w[2]), "ev": 0, "reg": False, "rm": False}
+            self.anom.discard(c)
         elif k == "DEL":
             del self.o[c]
+            self.anom.discard(c)
         elif k in UPD:
             v = self.o[c]
+            if KEY_F14 in self.finding_flags(w):
+                self.anom.add(c)
+            elif UPD[k](v["ev"]) != 0:
+                self.anom.discard(c)
             v["ev"] = UPD[k](v["ev"])
             v["reg"] = True
         elif k == "RM":
             self.o[c]["reg"] = False
             self.o[c]["rm"] = True
+            self.anom.discard(c)
 
     def expected(self, ready):
         res = {}
@@ -254,10 +287,21 @@ class Spec:
 LOOP_RE = re.compile(r"^loop backend=(\w+) poller=(\w+) (.*)$")
 
 
-def oracle(case, lines, crash=None, ri=False):
+def expected_status(guards):
+    """guards: list of booleans, one per live side"""
+    if not guards or all(guards):
+        return "ok"
+    if not any(guards):
+        return "rejected"
+    return "MIXED"
+
+
+def oracle(case, lines, crash=None, ri=True, events=None):
     """The property text evaluated on the implementation's output.  Returns a list of
-    (op index, message, set of finding keys the failure is an instance of); empty = holds."""
+    (op index, message, set of finding keys whose SIGNATURE the failing observation matches);
+    empty list = the property holds on this case.  [events]: set collecting what the history reached."""
     bad = []
+    ev = events if events is not None else set()
     if case.header.startswith("loop"):
         backend = case.header.split()[1]
         m = LOOP_RE.match(lines[1]) if len(lines) > 1 else None
@@ -272,49 +316,117 @@ def oracle(case, lines, crash=None, ri=False):
                 bad.append((0, "free-running loop (%s): %s=%s (a loop with nothing ready must block, each wake-up/task/timer is "
                                "consumed once)" % (backend, k, v), set()))
         return bad
-    sp = Spec()
-    active_flags = set()     # finding patterns exercised so far in this history
+    sides = {"E": Spec(), "P": Spec()}
+    dead = {"E": False, "P": False}
+    tied, owner = {}, {}
+    scripts = []
     trunc_run = None          # consecutive truncated epoll polls: (first index, N, polls so far)
+
+    def live():
+        return [x for x in ("E", "P") if not dead[x]]
+
+    def runs(c):
+        return (not tied.get(c, False)) or owner.get(c, False)
+
+    def check_side(i, name, sp, ready, act, cbs, ordered):
+        """reported set and callbacks of one back-end against its interest map at poll time"""
+        exp = sp.expected(ready)
+        got = dict(act)
+        if len(got) != len(act):
+            bad.append((i, "%s: a channel is reported twice in one poll" % name, set()))
+        for c, r in act:
+            v = sp.o.get(c)
+            if v is None or not v["reg"]:
+                bad.append((i, "%s: removed/unregistered channel %d reported (revents %d)" % (name, c, r), set()))
+            elif v["ev"] == 0:
+                bad.append((i, "%s: channel %d has no interest enabled but is reported (revents %d) and called" % (name, c, r),
+                            {KEY_F14} if c in sp.anom else set()))
+            elif c not in exp or exp[c] != r:
+                bad.append((i, "%s: channel %d reported with revents %d, descriptor condition %d & (events %d | ERR|HUP|NVAL) = %d"
+                            % (name, c, r, ready.get(v["fd"], 0), v["ev"], exp.get(c, 0)), set()))
+            if r & (HUP | ERR):
+                ev.add("hup-or-err")
+        want = []
+        for c, r in (act if ordered else sorted(act)):
+            if runs(c):
+                want += [(c, x) for x in py_dispatch(r)]
+            else:
+                ev.add("tied-owner-gone")
+        if cbs is not None and cbs != want:
+            bad.append((i, "%s: callbacks %s, the reported conditions%s require %s" % (name, cbs, " (in dispatch order)" if ordered else "", want), set()))
+        return exp, want
+
     for i, op in enumerate(case.ops):
         w = op.split()
         li = i + 1
         if li >= len(lines) or lines[li] == "end":
             if crash is not None:
-                msg = "implementation crashed at op %d %r: %s" % (i, op, crash_summary(crash))
-                fl = set(active_flags)
-                if w[0] in UPD or w[0] in ("RM", "NEW", "DEL"):
-                    if sp.guard(w):
-                        fl |= sp.finding_flags(w, ri)
+                summ = crash_summary(crash)
+                msg = "implementation crashed at op %d %r: %s" % (i, op, summ)
+                fl = set()
+                spP = sides["P"]
+                # F-14 (b): PollPoller::removeChannel's assert on a channel registered with an empty interest
+                if "removeChannel" in summ and "pfd.fd == -channel->fd()-1" in summ and not dead["P"]:
+                    if w[0] == "RM" and int(w[1]) in spP.anom:
+                        fl.add(KEY_F14)
+                    if w[0] == "LOOP" and any(sc[2] == "RM" and (sc[3] in spP.anom or any(s2[3] == sc[3] and s2[2] in ("DA", "DR", "DW") for s2 in scripts))
+                                              for sc in scripts):
+                        fl.add(KEY_F14)
                 bad.append((i, msg, fl))
             else:
                 bad.append((i, "missing output line", set()))
             return bad
         ln = lines[li]
         if ln.startswith("invalid") or ln == "skipped":
-            return bad          # not a history of the property's domain (environment misuse): nothing to check
+            return bad          # not a history of the property's domain (environment misuse / both sides ended): nothing to check
         k = w[0]
         if k in ENVOPS:
             continue
         if k == "INJ":
-            want = ",".join("%s:%s" % (w[1], x) for x in py_dispatch(int(w[2])))
+            c = int(w[1])
+            cbs = py_dispatch(int(w[2])) if runs(c) else []
+            if not runs(c):
+                ev.add("tied-owner-gone")
+            want = ",".join("%s:%s" % (w[1], x) for x in cbs)
             if ln != "inj cb=" + want:
-                bad.append((i, "handleEvent with revents=%s ran [%s], the property requires [%s]" % (w[2], ln[7:], want), set()))
+                bad.append((i, "handleEvent with revents=%s on a channel that is %s ran [%s], the property requires [%s]"
+                            % (w[2], "tied to a destroyed owner" if not runs(c) else "live", ln[7:], want), set()))
+            continue
+        if k == "TIE":
+            tied[int(w[1])] = True
+            owner[int(w[1])] = True
+            continue
+        if k == "DROP":
+            owner[int(w[1])] = False
+            continue
+        if k == "ON":
+            scripts.append((int(w[1]), w[2], w[3], int(w[4])))
+            continue
+        if k == "OFF":
+            scripts = []
             continue
         if k in ("NEW", "DEL", "RM") or k in UPD:
-            g = sp.guard(w)
+            gs = [sides[x].guard(w) for x in live()]
+            want = expected_status(gs)
             status = ln.split()[0]
-            if g:
-                active_flags |= sp.finding_flags(w, ri)
-                if status != "ok":
-                    bad.append((i, "op %r meets the Channel API preconditions but was %s" % (op, status), set(active_flags)))
-                    return bad
-                sp.step(w)
-            elif status != "rejected":
-                bad.append((i, "op %r violates a precondition but was %s" % (op, status), set()))
+            if status != want:
+                bad.append((i, "op %r: the Channel API preconditions say %s, the implementation %s" % (op, want, status), set()))
                 return bad
-            if k in UPD and g:
-                # anomaly ends when the channel gets a non-empty interest again or is removed: handled by flags per history (coarse)
-                pass
+            if want == "rejected":
+                ev.add("rejected")
+            if want == "MIXED":
+                return bad       # the two sides went apart (order-dependent callbacks): the case ends here
+            if want == "ok":
+                for x in live():
+                    sp = sides[x]
+                    if k in UPD and sp.o[int(w[1])]["rm"]:
+                        ev.add("re-register-same-object")
+                    sp.step(w)
+                if k == "NEW":
+                    tied.pop(int(w[1]), None)
+                    owner.pop(int(w[1]), None)
+                if k == "RM":
+                    ev.add("remove")
             trunc_run = None
             continue
         if k == "POLL":
@@ -323,60 +435,125 @@ def oracle(case, lines, crash=None, ri=False):
                 bad.append((i, "unparsable poll line %r" % ln, set()))
                 return bad
             env = dict(parse_pairs(m.group(1)))
-            nE, cap, actE, cbE = int(m.group(2)), int(m.group(3)), parse_pairs(m.group(4)), parse_cbs(m.group(5))
-            nP, actP, cbP = int(m.group(6)), parse_pairs(m.group(7)), parse_cbs(m.group(8))
-            exp = sp.expected(env)
-            for name, act, cbs in (("epoll", actE, cbE), ("poll", actP, cbP)):
-                got = dict(act)
-                if len(got) != len(act):
-                    bad.append((i, "%s: a channel is reported twice in one poll" % name, set(active_flags)))
-                for c, r in act:
-                    v = sp.o.get(c)
-                    if v is None or not v["reg"]:
-                        bad.append((i, "%s: removed/unregistered channel %d reported (revents %d)" % (name, c, r), set(active_flags)))
-                    elif v["ev"] == 0:
-                        bad.append((i, "%s: channel %d has no interest enabled but is reported (revents %d) and called"
-                                    % (name, c, r), set(active_flags)))
-                    elif c not in exp or exp[c] != r:
-                        bad.append((i, "%s: channel %d reported with revents %d, descriptor condition %d & (events %d | ERR|HUP|NVAL) = %d"
-                                    % (name, c, r, env.get(v["fd"], 0), v["ev"], exp.get(c, 0)), set(active_flags)))
-                # callbacks: exactly the dispatch of what was reported, channel by channel
-                want = []
-                for c, r in sorted(act):
-                    want += [(c, x) for x in py_dispatch(r)]
-                if cbs != want:
-                    bad.append((i, "%s: callbacks %s, reported conditions require %s" % (name, cbs, want), set(active_flags)))
-                for c, kind in cbs:
+            res = {}
+            if not dead["E"]:
+                if m.group(2) is None:
+                    bad.append((i, "epoll side printed as dead", set()))
+                    return bad
+                res["E"] = (int(m.group(2)), int(m.group(3)), parse_pairs(m.group(4)), parse_cbs(m.group(5)))
+            if not dead["P"]:
+                if m.group(6) is None:
+                    bad.append((i, "poll side printed as dead", set()))
+                    return bad
+                res["P"] = (int(m.group(6)), None, parse_pairs(m.group(7)), parse_cbs(m.group(8)))
+            exps = {}
+            pre = snapshot_maps(sides)
+            for x, name in (("E", "epoll"), ("P", "poll")):
+                if x in res:
+                    exps[x], _ = check_side(i, name, sides[x], env, res[x][2], res[x][3], False)
+                    if res[x][2]:
+                        ev.add("active")
+            trunc_run = completeness(i, bad, pre, exps, res, trunc_run, ev)
+            continue
+        if k == "LOOP":
+            m = LOOPLINE_RE.match(ln)
+            if not m:
+                bad.append((i, "unparsable loop line %r" % ln, set()))
+                return bad
+            env = dict(parse_pairs(m.group(1)))
+            parsed = {"E": parse_loop_side(m.group(2)), "P": parse_loop_side(m.group(3))}
+            res, exps = {}, {}
+            pre = snapshot_maps(sides)
+            for x, name in (("E", "epoll"), ("P", "poll")):
+                if dead[x]:
+                    continue
+                pr = parsed[x]
+                if pr is None or pr["status"] in ("dead", "FAULT"):
+                    bad.append((i, "%s: unparsable or dead side in %r" % (name, ln), set()))
+                    return bad
+                sp = sides[x]
+                snapshot = [c for c, _ in pr["act"]]
+                exps[x], want_cbs = check_side(i, name, sp, env, pr["act"], pr["cbs"], True)
+                res[x] = (pr["n"], pr["cap"], pr["act"], pr["cbs"])
+                if pr["act"]:
+                    ev.add("active")
+                # the callbacks' own calls, in the order the callbacks ran
+                rejected = False
+                for (c, kind) in want_cbs:
                     v = sp.o.get(c)
                     if v is None or not v["reg"] or v["ev"] == 0:
-                        bad.append((i, "%s: %s callback of channel %d which is %s" % (name, kind, c, "removed" if v is None or not v["reg"] else "disabled"),
-                                    set(active_flags)))
-            # completeness: poll reports every ready subscribed channel; epoll too unless the array was filled
-            missP = sorted(set(exp) - set(dict(actP)))
-            if missP:
-                bad.append((i, "poll: ready subscribed channel(s) %s not reported" % missP[:8], set(active_flags)))
-            missE = sorted(set(exp) - set(dict(actE)))
-            if missE:
-                # allowed only when the result array was filled; then it must grow and the bound must hold
-                N = len(exp)
-                if trunc_run is None:
-                    trunc_run = [i, N, 0]
-                trunc_run[2] += 1
-                bound = (max(0, math.ceil(math.log2(N / 16.0))) if N > 16 else 0) + 1
-                if nE != len(actE) or cap != 2 * nE:
-                    bad.append((i, "epoll: ready subscribed channel(s) %s not reported although the result array was not filled (n=%d)"
-                                % (missE[:8], nE), set(active_flags)))
-                elif trunc_run[2] >= bound:
-                    bad.append((i, "epoll: %d channels ready, still not all reported after %d consecutive polls (bound %d)"
-                                % (N, trunc_run[2], bound), set(active_flags)))
-            else:
-                trunc_run = None
-            if not missE and not missP and sorted(actE) != sorted(actP):
-                bad.append((i, "back-ends differ: epoll %s poll %s" % (sorted(actE), sorted(actP)), set(active_flags)))
+                        if c not in sp.anom:
+                            ev.add("stale-call-within-batch")
+                    for (sc, skind, sop, sc2) in scripts:
+                        if sc != c or skind != kind:
+                            continue
+                        w2 = [sop, str(sc2)]
+                        g = sp.guard(w2)
+                        if g and sop == "RM" and sc2 != c and sc2 in snapshot:
+                            g = False     # EventLoop::removeChannel: not the current channel and still in activeChannels_
+                        if not g:
+                            rejected = True
+                            break
+                        sp.step(w2)
+                        ev.add("callback-op")
+                    if rejected:
+                        break
+                if rejected != (pr["status"] == "rejected"):
+                    bad.append((i, "%s: the callbacks' calls %s a precondition (Channel API / EventLoop::removeChannel), the implementation's "
+                                   "batch was %s" % (name, "violate" if rejected else "respect", pr["status"]), set()))
+                    return bad
+                if rejected:
+                    dead[x] = True
+                    ev.add("batch-rejected")
+            trunc_run = completeness(i, bad, pre, exps, res, trunc_run, ev)
             continue
         bad.append((i, "unknown op %r" % op, set()))
         return bad
     return bad
+
+
+def snapshot_maps(sides):
+    """interest maps and F-14 anomaly sets of both sides at poll time"""
+    return {x: ({c: (v["fd"], v["ev"], v["reg"]) for c, v in sides[x].o.items()}, set(sides[x].anom)) for x in sides}
+
+
+def completeness(i, bad, pre, exps, res, trunc_run, ev):
+    """every ready subscribed channel is reported (epoll: unless the result array was filled, then within
+    the bound); both back-ends report the same set when their interest maps are the same"""
+    missP = []
+    if "P" in res:
+        missP = sorted(set(exps["P"]) - set(dict(res["P"][2])))
+        if missP:
+            bad.append((i, "poll: ready subscribed channel(s) %s not reported" % missP[:8], set()))
+    missE = []
+    if "E" in res:
+        nE, cap, actE = res["E"][0], res["E"][1], res["E"][2]
+        missE = sorted(set(exps["E"]) - set(dict(actE)))
+        if missE:
+            N = len(exps["E"])
+            if trunc_run is None:
+                trunc_run = [i, N, 0]
+            trunc_run[2] += 1
+            bound = (max(0, math.ceil(math.log2(N / 16.0))) if N > 16 else 0) + 1
+            if nE != len(actE) or cap != 2 * nE:
+                bad.append((i, "epoll: ready subscribed channel(s) %s not reported although the result array was not filled (n=%d)"
+                            % (missE[:8], nE), set()))
+            elif trunc_run[2] >= bound:
+                bad.append((i, "epoll: %d channels ready, still not all reported after %d consecutive polls (bound %d)"
+                            % (N, trunc_run[2], bound), set()))
+        else:
+            trunc_run = None
+        if nE >= 16:
+            ev.add("array-filled")
+    if "E" in res and "P" in res and not missE and not missP and pre["E"][0] == pre["P"][0]:
+        aE, aP = sorted(res["E"][2]), sorted(res["P"][2])
+        if aE != aP:
+            diff = set(c for c, _ in set(aE) ^ set(aP))
+            anom = pre["E"][1] | pre["P"][1]
+            mapE = pre["E"][0]
+            fl = {KEY_F14} if diff and all(c in anom and c in mapE and mapE[c][1] == 0 for c in diff) else set()
+            bad.append((i, "back-ends differ: epoll %s poll %s" % (aE, aP), fl))
+    return trunc_run
 
 
 def crash_summary(crash):
@@ -419,8 +596,8 @@ def compare(case, li, lm, crash):
             continue
         if a and b and a.startswith("poll ") and b.startswith("poll "):
             ma, mb = POLL_RE.match(a), POLL_RE.match(b)
-            if ma and mb and ma.group(1) == mb.group(1) and ma.group(2) == mb.group(2) and ma.group(3) == mb.group(3) \
-               and ma.group(6, 7, 8) == mb.group(6, 7, 8):
+            if ma and mb and ma.group(2) is not None and ma.group(1) == mb.group(1) and ma.group(2) == mb.group(2) \
+               and ma.group(3) == mb.group(3) and ma.group(6, 7, 8) == mb.group(6, 7, 8):
                 full = parse_pairs(mb.group(4))
                 got = parse_pairs(ma.group(4))
                 nE = int(ma.group(2))
@@ -432,6 +609,22 @@ def compare(case, li, lm, crash):
     return None
 
 
+def with_order(case, li):
+    """The model's copy of a case: every LOOP gets the epoll dispatch order the implementation
+    produced (the kernel's choice), which the model runner validates and replays."""
+    if not li or not any(op.startswith("LOOP") for op in case.ops):
+        return case
+    ops = []
+    for i, op in enumerate(case.ops):
+        if op.startswith("LOOP") and i + 1 < len(li):
+            m = LOOPLINE_RE.match(li[i + 1])
+            pr = parse_loop_side(m.group(2)) if m else None
+            if pr and "act" in pr:
+                op = op + " order=" + ",".join(str(c) for c, _ in pr["act"])
+        ops.append(op)
+    return vlib.Case(case.cid, case.header, ops, case.tag)
+
+
 # ------------------------------------------------------------------ generators
 def case_dispatch_table():
     ops = ["open 0 E", "NEW 0 0"]
@@ -440,6 +633,19 @@ def case_dispatch_table():
         r = sum(b for j, b in enumerate(bits) if m >> j & 1)
         ops.append("INJ 0 %d" % r)
     return mkcase("dispatch", ops, "dispatch-table")
+
+
+def case_dispatch_tied():
+    """the tie_ guard: owner alive -> as untied; owner destroyed -> no callback at all"""
+    ops = ["open 0 E", "NEW 0 0", "TIE 0"]
+    bits = [IN, PRI, OUT, ERR, HUP, NVAL, RDHUP]
+    for m in range(0, 128, 5):
+        ops.append("INJ 0 %d" % sum(b for j, b in enumerate(bits) if m >> j & 1))
+    ops.append("DROP 0")
+    for m in range(128):
+        ops.append("INJ 0 %d" % sum(b for j, b in enumerate(bits) if m >> j & 1))
+    ops += ["DEL 0", "NEW 0 0", "INJ 0 1", "INJ 0 24"]      # a fresh Channel object is untied
+    return mkcase("dispatch_tied", ops, "dispatch-table")
 
 
 def case_growth(n, extra_polls=2):
@@ -473,6 +679,20 @@ HANDMADE = {
     "reuse_fd": ["open 0 S", "open 1 E", "NEW 0 0", "NEW 1 1", "ER 0", "ER 1", "wr 0", "POLL", "DA 0", "RM 0", "DEL 0", "close 0", "open 0 P",
                  "NEW 2 0", "ER 2", "POLL", "wr 0", "POLL", "pc 0", "POLL", "drain 0", "POLL"],
     "second_channel_same_fd": ["open 0 E", "NEW 0 0", "NEW 1 0", "ER 0", "ER 1", "RM 1", "DEL 0", "DA 0", "RM 0", "ER 1", "wr 0", "POLL", "DEL 0"],
+    # one loop iteration dispatches the SNAPSHOT: 0's read callback disables 1 (and vice versa) -- the other one is
+    # still called in this iteration, and not in the next one
+    "stale_batch": ["open 0 E", "open 1 E", "open 2 S", "NEW 0 0", "NEW 1 1", "NEW 2 2", "ER 0", "ER 1", "ER 2", "EW 2", "wr 0", "wr 1",
+                    "ON 0 read DA 1", "ON 1 read DA 0", "ON 2 write DW 2", "LOOP", "LOOP", "OFF", "ER 0", "ER 1", "LOOP", "POLL"],
+    # a callback removes its own channel (allowed) and re-registers it; another one removes a channel that is still in
+    # the snapshot (EventLoop::removeChannel's assert: rejected)
+    "batch_remove_self": ["open 0 E", "open 1 P", "NEW 0 0", "NEW 1 1", "ER 0", "ER 1", "wr 0", "wr 1", "ON 0 read DA 0", "ON 0 read RM 0",
+                          "ON 0 read ER 0", "LOOP", "LOOP", "OFF", "ON 1 read DA 1", "ON 1 read RM 1", "LOOP", "LOOP", "ER 1", "LOOP", "POLL"],
+    "batch_remove_ahead": ["open 0 E", "open 1 E", "NEW 0 0", "NEW 1 1", "ER 0", "ER 1", "DA 1", "wr 0", "wr 1", "ER 1", "DA 1",
+                           "ON 0 read RM 1", "LOOP", "ER 1", "LOOP", "POLL"],
+    "batch_remove_in_snapshot": ["open 0 E", "open 1 E", "NEW 0 0", "NEW 1 1", "ER 0", "ER 1", "wr 0", "wr 1",
+                                 "ON 0 read DA 1", "ON 0 read RM 1", "ON 1 read DA 0", "ON 1 read RM 0", "LOOP", "POLL"],
+    "tied_in_batch": ["open 0 E", "open 1 S", "NEW 0 0", "NEW 1 1", "ER 0", "ER 1", "EW 1", "TIE 1", "wr 0", "wr 1", "LOOP", "DROP 1", "LOOP",
+                      "POLL", "ON 0 read DA 1", "LOOP", "LOOP", "DEL 1", "RM 1", "DEL 1", "NEW 1 1", "ER 1", "LOOP"],
     "conditions": ["open 0 S", "open 1 P", "open 2 Q", "open 3 E", "NEW 0 0", "NEW 1 1", "NEW 2 2", "NEW 3 3", "ER 0", "EW 0", "ER 1", "EW 2",
                    "ER 3", "EW 3", "POLL", "wr 0", "wr 1", "fill 2", "fill 3", "POLL", "fill 0", "POLL", "unfill 0", "unfill 2", "drain 3", "POLL",
                    "hc 0", "POLL", "drain 0", "POLL", "pc 0", "pc 1", "pc 2", "POLL", "drain 1", "POLL", "DR 0", "POLL", "DW 0", "RM 0", "POLL"],
@@ -497,7 +717,7 @@ def gen_enumerated(depth, sample=None, rng=None):
             if w[0] in ENVOPS or w[0] == "POLL":
                 continue
             if sp.guard(w):
-                if sp.finding_flags(w, False):
+                if sp.finding_flags(w, True):
                     ok = False
                     break
                 sp.step(w)
@@ -507,7 +727,7 @@ def gen_enumerated(depth, sample=None, rng=None):
         yield mkcase("e%d_%d" % (depth, n), prefix + list(seq) + ["POLL"], "enumerated-depth-%d" % depth)
 
 
-def gen_random(rng, count, ri, wild, prefix="r", maxops=40):
+def gen_random(rng, count, ri, wild, prefix="r", maxops=40, loopy=0.3):
     kinds = "ESPQ"
     hist = {}
     for ci in range(count):
@@ -516,6 +736,9 @@ def gen_random(rng, count, ri, wild, prefix="r", maxops=40):
         ops = []
         nfd = rng.randint(2, 6)
         nch = rng.randint(2, 8)
+        # a "loopy" history dispatches through real EventLoop::loop() iterations with scripted callbacks
+        # (the generator's own interest map does not follow the callbacks' effects: later ops may then be rejected)
+        is_loopy = rng.random() < loopy
         for k in range(nfd):
             op = "open %d %s" % (k, rng.choice(kinds))
             ds.apply(op.split())
@@ -527,9 +750,9 @@ def gen_random(rng, count, ri, wild, prefix="r", maxops=40):
             if w[0] in ENVOPS:
                 if not ds.apply(w):
                     return False
-            elif w[0] != "POLL":
+            elif w[0] in ("NEW", "DEL", "RM") or w[0] in UPD:
                 if sp.guard(w):
-                    if not wild and sp.finding_flags(w, ri):
+                    if not wild and sp.finding_flags(w, True):    # F-1 is fixed: re-registration is an ordinary history
                         return False
                     sp.step(w)
             ops.append(op)
@@ -541,6 +764,25 @@ def gen_random(rng, count, ri, wild, prefix="r", maxops=40):
             tries += 1
             x = rng.random()
             alive = sorted(sp.o)
+            if is_loopy and alive and rng.random() < 0.3:
+                y = rng.random()
+                if y < 0.55:
+                    c = rng.choice(alive)
+                    c2 = rng.choice(alive) if rng.random() < 0.8 else c
+                    kind = rng.choice(["read", "read", "write", "write", "close", "error"])
+                    sop = rng.choice(["DA", "DR", "DW", "ER", "EW", "RM", "DA"])
+                    emit("ON %d %s %s %d" % (c, kind, sop, c2))
+                    if sop == "DA" and rng.random() < 0.4:
+                        emit("ON %d %s RM %d" % (c, kind, c2))
+                elif y < 0.62:
+                    emit("OFF")
+                elif y < 0.72:
+                    emit("TIE %d" % rng.choice(alive))
+                elif y < 0.8:
+                    emit("DROP %d" % rng.choice(alive))
+                else:
+                    emit("LOOP")
+                continue
             if x < 0.14:
                 c = rng.randrange(nch)
                 if c in sp.o or not ds.d:
@@ -582,13 +824,58 @@ def gen_random(rng, count, ri, wild, prefix="r", maxops=40):
                                 "P": ["wr", "drain", "pc", "wr"], "Q": ["fill", "unfill", "pc", "fill"]}[kind])
                 emit("%s %d" % (e, k))
             else:
-                emit("POLL")
+                emit("LOOP" if is_loopy and rng.random() < 0.7 else "POLL")
+        emit("LOOP" if is_loopy else "POLL")
         emit("POLL")
-        yield mkcase("%s%d" % (prefix, ci), ops, "random-wild" if wild else "random")
+        yield mkcase("%s%d" % (prefix, ci), ops, ("random-wild" if wild else "random") + ("-loop" if is_loopy else ""))
     st0 = getattr(gen_random, "stats", {})
     for k, v in hist.items():
         st0[k] = st0.get(k, 0) + v
     gen_random.stats = st0
+
+
+def gen_batches(rng, count, prefix="b"):
+    """Histories aimed at the snapshot dispatch: 2..5 channels that are all ready in the same batch, callbacks that
+    disable / re-enable / remove each other or themselves, several real loop iterations, ties."""
+    for ci in range(count):
+        n = rng.randint(2, 5)
+        ops = []
+        kinds = [rng.choice("EEESP") for _ in range(n)]
+        for k in range(n):
+            ops += ["open %d %s" % (k, kinds[k]), "NEW %d %d" % (k, k)]
+        for k in range(n):
+            if kinds[k] == "P" or rng.random() < 0.75:
+                ops.append("ER %d" % k)
+                if rng.random() < 0.9:
+                    ops.append("wr %d" % k)
+            if kinds[k] != "P" and rng.random() < 0.5:
+                ops.append("EW %d" % k)
+        if rng.random() < 0.25:
+            c = rng.randrange(n)
+            ops.append("TIE %d" % c)
+            if rng.random() < 0.6:
+                ops.append("DROP %d" % c)
+        for _ in range(rng.randint(1, 5)):
+            c, c2 = rng.randrange(n), rng.randrange(n)
+            kind = rng.choice(["read", "read", "write"])
+            sop = rng.choice(["DA", "DA", "DR", "DW", "ER", "EW"])
+            ops.append("ON %d %s %s %d" % (c, kind, sop, c2))
+            if sop == "DA" and rng.random() < 0.35:
+                ops.append("ON %d %s RM %d" % (c, kind, c2))
+                if rng.random() < 0.5:
+                    ops.append("ON %d %s %s %d" % (c, kind, rng.choice(["ER", "EW"]), c2))
+        ops.append("LOOP")
+        for _ in range(rng.randint(0, 3)):
+            y = rng.random()
+            if y < 0.3:
+                ops.append("OFF")
+            elif y < 0.6:
+                ops.append("%s %d" % (rng.choice(["ER", "EW", "DA", "RM", "DR"]), rng.randrange(n)))
+            elif y < 0.75:
+                ops.append("%s %d" % (rng.choice(["wr", "drain"]), rng.randrange(n)))
+            ops.append("LOOP")
+        ops.append("POLL")
+        yield mkcase("%s%d" % (prefix, ci), ops, "batches")
 
 
 def load_case_file(path, prefix=""):
@@ -613,35 +900,19 @@ def load_case_file(path, prefix=""):
 
 
 def nontrivial_events(case, lines):
-    """Non-trivial = the history reaches at least one of: swap-and-pop with a moved entry, a
-    re-registration (same object or fresh object on a used descriptor), a reported HUP/ERR, a filled
-    epoll result array, a rejected precondition, a disabled (negated) pollfd being polled."""
+    """Non-trivial = the history reaches at least one of: a removal, a re-registration (same object or fresh
+    object on a used descriptor), a reported HUP/ERR, a filled epoll result array, a rejected precondition, a
+    disabled (negated) pollfd being polled, a callback issuing Channel API calls, a stale call within a batch,
+    a rejected batch, a tied channel whose owner is gone.  (The events the oracle meets on the way are added
+    by the caller.)"""
     ev = set()
-    removed_fds, removed_objs = set(), set()
+    removed_fds = set()
     for op, ln in zip(case.ops, lines[1:]):
         w = op.split()
-        if ln.startswith("rejected"):
-            ev.add("rejected")
-        if w[0] == "RM" and ln.startswith("ok"):
-            removed_objs.add(w[1])
-            m = re.search(r"P\{idx=(\S*) map", ln)
-            ev.add("remove")
-        if w[0] in UPD and w[1] in removed_objs and ln.startswith("ok"):
-            ev.add("re-register-same-object")
         if w[0] == "close":
             removed_fds.add(w[1])
         if w[0] == "NEW" and len(w) > 2 and w[2] in removed_fds:
             ev.add("fresh-channel-on-reused-fd")
-        if ln.startswith("poll "):
-            m = POLL_RE.match(ln)
-            if m:
-                act = parse_pairs(m.group(4))
-                if any(r & (HUP | ERR) for _, r in act):
-                    ev.add("hup-or-err")
-                if int(m.group(2)) >= 16:
-                    ev.add("array-filled")
-                if act:
-                    ev.add("active")
         if "pfds=" in ln and re.search(r"pfds=\S*-\d+:", ln):
             ev.add("negated-entry")
     return ev
@@ -654,9 +925,16 @@ def run(chk, replay=None):
     pr = chk.prove()
     ri = gen_fact("PollPoller_remove_resets_index", "false") == "true"
     grow = gen_fact("EPollPoller_grow_factor", "?")
-    chk.cov["generated_facts"] = {"PollPoller_remove_resets_index": ri, "EPollPoller_grow_factor": grow}
+    facts = {}
+    for name in ("EPollPoller_poll_grow_guard", "EPollPoller_poll_new_size", "Channel_handleEventWithGuard_calls", "Channel_handleEvent_runs",
+                 "Channel_handleEvent_guard_is_tie_lock", "EventLoop_loop_dispatches_snapshot", "EventLoop_handleRead_reads_wakeupfd",
+                 "EventLoop_eventfd_semaphore", "TimerQueue_handleRead_reads_timerfd", "EventLoop_handleRead_read_size",
+                 "TimerQueue_readTimerfd_read_size"):
+        facts[name] = gen_defined(name)
+    chk.cov["generated_facts"] = {"PollPoller_remove_resets_index": ri, "EPollPoller_grow_factor": grow,
+                                  "translated": sorted(k for k, v in facts.items() if v), "missing": sorted(k for k, v in facts.items() if not v)}
     model = vlib.build_model("C09")
-    impl = vlib.build_driver("C09_driver", ["C09_driver.cc"], variant="asan")
+    impl = vlib.build_driver("C09_driver", ["C09_driver.cc"], variant="asan", wrap=["epoll_wait", "poll"])
 
     cases = []
     if replay:
@@ -665,6 +943,7 @@ def run(chk, replay=None):
         for f in sorted(glob.glob(os.path.join(vlib.ROOT, "corpus", "C09", "*.case"))):
             cases += load_case_file(f, prefix="corpus_")
         cases.append(case_dispatch_table())
+        cases.append(case_dispatch_tied())
         for name, ops in sorted(HANDMADE.items()):
             cases.append(mkcase("hand_" + name, ops, "handmade"))
         cases += [case_loop("epoll"), case_loop("poll")]
@@ -679,6 +958,7 @@ def run(chk, replay=None):
             cases += list(gen_enumerated(4, sample=0.2, rng=rng))
             nrand, nwild = 40000, 600
         cases += [case_growth(n) for n in sizes]
+        cases += list(gen_batches(rng, 300 if tier == "quick" else 6000))
         cases += list(gen_random(rng, nrand, ri, wild=False, prefix="r"))
         cases += list(gen_random(rng, nwild, ri, wild=True, prefix="w"))
     chk.cov["generator_histogram"] = getattr(gen_random, "stats", {})
@@ -696,7 +976,9 @@ def run(chk, replay=None):
             impl_out.update(o)
             crashes.update(c)
     t2 = time.time()
-    model_out, mcrashes = vlib.run_batch_parallel(model, cases, timeout=1200)
+    # the model's copy of each case carries the epoll dispatch order the implementation produced in every LOOP
+    mcases = [with_order(c, impl_out.get(c.cid) if c.cid not in crashes else [l for l in crashes[c.cid][2] if l]) for c in cases]
+    model_out, mcrashes = vlib.run_batch_parallel(model, mcases, timeout=1200)
     t3 = time.time()
     chk.cov["phase_s"] = {"generate": round(t1 - chk.t0 - pr["wall_s"], 1), "impl": round(t2 - t1, 1), "model": round(t3 - t2, 1)}
 
@@ -718,7 +1000,8 @@ def run(chk, replay=None):
         if li is None:
             oracle_bad.append((c, 0, "no implementation output", set()))
             continue
-        fails = oracle(c, li, crash, ri)
+        ev = nontrivial_events(c, li)
+        fails = oracle(c, li, crash, ri, events=ev)
         if fails:
             idx, msg, flags = fails[0]
             allf = set()
@@ -736,20 +1019,24 @@ def run(chk, replay=None):
         d = compare(c, li, lm, crash)
         if d is not None:
             corr_bad.append((c, d[0], d[1]))
-        ev = nontrivial_events(c, li)
         for e in ev:
             hist[e] = hist.get(e, 0) + 1
         if ev:
             sigs.add((tuple(op.split()[0] for op in c.ops), tuple(sorted(ev)), li[-2] if len(li) > 1 else ""))
+        if len(chk.cov["samples"]) < 5 and c.tag == "random-loop" and len(c.ops) <= 22 and {"stale-call-within-batch"} <= ev \
+           and not any(s.get("events") and "stale-call-within-batch" in s["events"] for s in chk.cov["samples"]):
+            chk.sample({"case": c.text().split("\n")[:-1], "impl_last": li[-2] if len(li) > 1 else "", "events": sorted(ev)})
         if len(chk.cov["samples"]) < 4 and c.tag == "random" and len(c.ops) <= 16 and {"remove", "active"} <= ev:
             chk.sample({"case": c.text().split("\n")[:-1], "impl_last": li[-2] if len(li) > 1 else "", "events": sorted(ev)})
     chk.cov["distinct_nontrivial"] = len(sigs)
     chk.cov["event_histogram"] = hist
-    chk.cov["rule"] = ("corpus (finding witnesses) + dispatch table (all 128 revents combinations) + hand-made swap-and-pop / fd-reuse / "
-                       "condition histories + all depth-2/3(/4) suffixes over two channels behind a third + epoll growth with 1..300 ready "
-                       "descriptors + random histories (<=40 ops, <=8 Channel objects, <=6 descriptors of 4 kinds) + free-running loop "
-                       "scenario per back-end; non-trivial = reaches a removal, a re-registration, a HUP/ERR report, a filled result "
-                       "array, a rejected precondition or a negated pollfd; distinct by (op-kind sequence, events, last line)")
+    chk.cov["rule"] = ("corpus (finding witnesses) + dispatch table (all 128 revents combinations; tied with live / destroyed owner) + hand-made "
+                       "swap-and-pop / fd-reuse / condition / stale-batch / remove-in-batch / tie histories + all depth-2/3(/4) suffixes over two "
+                       "channels behind a third (re-registration included) + epoll growth with 1..300 ready descriptors + random histories "
+                       "(<=40 ops, <=8 Channel objects, <=6 descriptors of 4 kinds; ~30% dispatch through real EventLoop::loop() iterations with "
+                       "scripted callbacks) + free-running loop scenario per back-end; non-trivial = reaches a removal, a re-registration, a "
+                       "HUP/ERR report, a filled result array, a rejected precondition, a negated pollfd, a callback issuing Channel API calls, "
+                       "a stale call within a batch, a rejected batch or a tied channel without owner; distinct by (op-kind sequence, events, last line)")
     chk.cov["traces_validated_against_impl"] = len(cases) - len(corr_bad)
     chk.add_obligation("correspondence: extracted C09_Model (ep_step, pp_step at the generated resets_index) == real EPollPoller/PollPoller/"
                        "Channel after every op (index_, channels_, pollfds_, kernel interest list from /proc, events_ size, active lists, callbacks)",
@@ -757,6 +1044,8 @@ def run(chk, replay=None):
     chk.add_obligation("oracle: exactly the ready subscribed channels are reported and called, both back-ends the same, bounded epoll growth, "
                        "loop blocks when idle (on the implementation's own outputs)", not oracle_bad)
     chk.add_obligation("generated facts: PollPoller_remove_resets_index / EPollPoller_grow_factor regenerated from the AST", grow != "?")
+    chk.add_obligation("generated functions and facts translated from the AST (growth guard + resize argument, handleEventWithGuard tests, tie_ guard, "
+                       "snapshot dispatch, wake-up/timer descriptor reads): none missing", all(facts.values()))
     chk.trusted("extraction: ExtrOcamlBasic only; extract/util.ml + extract/C09_driver.ml (OCaml 4.13.1)",
                 "harness/C09_driver.cc (#define private/protected public; real eventfd/pipe/socketpair descriptors; kernel interest list read "
                 "from /proc/self/fdinfo; Channel API preconditions tested on the driver's own bookkeeping)",
@@ -768,9 +1057,9 @@ def run(chk, replay=None):
 
     def run_one(cc):
         io, cr = vlib.run_batch(impl, [cc], timeout=120)
-        mo, _ = vlib.run_batch(model, [cc], timeout=120)
         crash = cr.get(cc.cid)
         li = io.get(cc.cid) if crash is None else ([l for l in crash[2] if l] or ["case ?"])
+        mo, _ = vlib.run_batch(model, [with_order(cc, li)], timeout=120)
         return li, mo.get(cc.cid), crash
 
     def shrink(c, pred):
@@ -826,9 +1115,14 @@ def run(chk, replay=None):
                         "cases differ%s" % (idx, msg, len(corr_bad), len(cases),
                                             "" if oracle_bad else "; the property oracle holds on every case"))
             body = small.text()
+        if not body and oracle_bad:
+            # the oracle already found an input on which the property fails: name it next to the broken obligation
+            c0 = sorted(oracle_bad, key=lambda t: len(t[0].ops))[0][0]
+            what.append("a failing input exists (see the oracle violation above); smallest failing case repeated below")
+            body = c0.text()
         p = chk.write_replay("broken_obligation.txt", "\n".join("# " + w for w in what) + "\n" + body +
                              ("\n--- coq log tail ---\n" + pr["log"][-3000:] if not pr["ok"] else ""))
-        chk.violation(p, "; ".join(what), no_input=True)
+        chk.violation(p, "; ".join(what), no_input=not oracle_bad)
     return chk.finish(level="proof", assumptions=[
         "kernel contract (3.4): epoll_wait/poll report a registered descriptor iff its condition intersects events|ERR|HUP|NVAL, "
         "level-triggered; epoll_wait returns min(ready, maxevents) entries (which ones is unconstrained)",
